@@ -131,6 +131,10 @@ class C10:
             hs = []
             for _h in range(rng.randint(1, 3)):
                 words = [gen.rand_bytes(rng, rng.randint(1, 12), b"abcdefgh0123") for _w in range(rng.randint(1, 8))]
+                if rng.chance(1, 3):
+                    # characters of two, three and four bytes around the place where the line is folded (the dependency walks
+                    # char_indices; Hm/FoldUtf8: same split points as the byte search of the model)
+                    words = [w if rng.chance(1, 2) else "".join(rng.pick(["\u00e9", "\u2603", "\U0001d11e", "\u00fc", "a", "\u3000", "\u00a0"]) for _c in range(rng.randint(1, 6))).encode() for w in words]
                 seps = [rng.pick([b" ", b" ", b"\t", b"  ", b" \t", b"   "]) for _w in words]
                 value = b"".join(w + sp for w, sp in zip(words, seps)).strip(b" \t")
                 hs.append((rng.pick([b"X", b"Xy", b"X-Header", b"A"]), value))
@@ -240,7 +244,9 @@ class C11:
                             vlen = lim - 2 - len(name) - 1 - delta
                             if vlen - len(ws) - tail < 1:
                                 continue
-                            value = b"a" * (vlen - len(ws) - tail) + ws + b"b" * tail
+                            fill = [b"a", "\u00e9".encode(), "\u2603".encode(), "\U0001d11e".encode()][(j // 2) % 4] if (j // 8) % 3 == 2 else b"a"
+                            nfill = vlen - len(ws) - tail
+                            value = fill * (nfill // len(fill)) + b"a" * (nfill % len(fill)) + ws + b"b" * tail
                             raw = name + b":" + value + CRLF
                             if j % 2 == 0:
                                 st = b"GET / HTTP/1.1\r\n" + raw + b"\r\n"
